@@ -3,7 +3,7 @@
 (* Trace specification of the lunar family: C06 (year structure, month     *)
 (* navigation), C01 (civil <-> lunar bijection), C03 (solar terms), ...    *)
 (***************************************************************************)
-EXTENDS Civil, LunarTable, Terms, TraceKit
+EXTENDS Civil, LunarTable, Terms, GanZhi, TraceKit
 
 tvars == << l, rej >>
 SeqSet(s) == { s[i] : i \in 1..Len(s) }
@@ -206,7 +206,62 @@ C03Checks(e) ==
 
 C03Year == IsEv("C03Year") /\ Consume(C03Checks(Trace[l]))
 
+(***************************************************************************)
+(* C05Year: pillars at the moments where they change.                      *)
+(***************************************************************************)
+TabOf31(tab) == [i \in 1..Len(tab) |-> [jdn |-> JDN(tab[i][2], tab[i][3], tab[i][4]), sod |-> Sod(tab[i][5], tab[i][6], tab[i][7])]]
+TabShapeOK(tab) == Len(tab) = 31 /\ \A i \in 1..Len(tab) : Len(tab[i]) = 7 /\ tab[i][1] = TermKeys31[i]
+                   /\ ValidDateTime(tab[i][2], tab[i][3], tab[i][4], tab[i][5], tab[i][6], tab[i][7])
+GZ2(k) == << k % 10, k % 12 >>
+C05Checks(e) ==
+  LET y == e.y
+      Tab == TabOf31(e.tab)
+  IN IF e.p # 0 THEN Chk("C05.year.panic", y, FALSE)
+     ELSE IF ~TabShapeOK(e.tab) THEN Chk("C05.table.shape", y, FALSE)
+     ELSE SumSeq(e.q, LAMBDA q :
+       IF q.p # 0 THEN Chk("C05.moment.panic", q.at, FALSE)
+       ELSE
+         LET J == JDN(q.at[1], q.at[2], q.at[3])
+             sod == Sod(q.at[4], q.at[5], q.at[6])
+             t == [jdn |-> J, sod |-> sod]
+             yNew == YearIdx(q.ly)
+             yDay == YearIdx(PillarYearByDay(y, J, Tab[5]))
+             yIns == YearIdx(PillarYearByInstant(y, t, Tab[5]))
+             mDay == MonthIdxByDay(y, Tab, J)
+             mIns == MonthIdxByInstant(y, Tab, t)
+             dPlain == DayIdx(J)
+             dEarly == DayIdxEarlyRat(J, sod)
+             dLate == DayIdxLateRat(J, sod)
+             hIdx == HourIdx(J, sod)
+             x == q.idx
+             k == q.at
+             Pair(i) == << x[i], x[i + 1] >>
+         IN Chk("C05.year.newYear", << k, q.ly, Pair(1) >>, Pair(1) = GZ2(yNew))
+            + Chk("C05.year.lichunDay", << k, Pair(3) >>, Pair(3) = GZ2(yDay))
+            + Chk("C05.year.lichunInstant", << k, Pair(5) >>, Pair(5) = GZ2(yIns))
+            + Chk("C05.month.jieDay", << k, Pair(7) >>, Pair(7) = GZ2(mDay))
+            + Chk("C05.month.jieInstant", << k, Pair(9) >>, Pair(9) = GZ2(mIns))
+            \* five tigers: the month stem is tied to the stem of the pillar year in force
+            + Chk("C05.month.fiveTigers", << k, Pair(7), Pair(9) >>,
+                  /\ x[7] = FiveTigersStem(StemOf(YearIdx(PillarYearByDay(y, J, Tab[5]))), (x[8] - 2) % 12)
+                  /\ x[9] = FiveTigersStem(StemOf(YearIdx(PillarYearByInstant(y, t, Tab[5]))), (x[10] - 2) % 12))
+            + Chk("C05.day", << k, Pair(11) >>, Pair(11) = GZ2(dPlain))
+            + Chk("C05.day.earlyRat", << k, Pair(13) >>, Pair(13) = GZ2(dEarly))
+            + Chk("C05.day.lateRat", << k, Pair(15) >>, Pair(15) = GZ2(dLate))
+            + Chk("C05.hour", << k, Pair(17), q.tm >>, Pair(17) = GZ2(hIdx) /\ q.tm = GZ2(hIdx))
+            + Chk("C05.validPair", << k, x >>, \A i \in {1, 3, 5, 7, 9, 11, 13, 15, 17} : ValidPair(x[i], x[i + 1]))
+            + Chk("C05.names", << k, q.str >>,
+                  q.str = << GanZhiName(yNew), GanZhiName(yDay), GanZhiName(yIns), GanZhiName(mDay), GanZhiName(mIns),
+                             GanZhiName(dPlain), GanZhiName(dEarly), GanZhiName(dLate), GanZhiName(hIdx),
+                             GanZhiName(yNew), GanZhiName(mDay), GanZhiName(dPlain), GanZhiName(hIdx),
+                             ShengXiao[(yNew % 12) + 1], ShengXiao[(yDay % 12) + 1], ShengXiao[(yIns % 12) + 1],
+                             ShengXiao[(mDay % 12) + 1], ShengXiao[(dPlain % 12) + 1], ShengXiao[(hIdx % 12) + 1] >>)
+            + Chk("C05.eightChar.sect1", << k, q.ec1 >>, q.ec1 = << GanZhiName(yIns), GanZhiName(mIns), GanZhiName(dEarly), GanZhiName(hIdx) >>)
+            + Chk("C05.eightChar.sect2", << k, q.ec2 >>, q.ec2 = << GanZhiName(yIns), GanZhiName(mIns), GanZhiName(dLate), GanZhiName(hIdx) >>))
+
+C05Year == IsEv("C05Year") /\ Consume(C05Checks(Trace[l]))
+
 TraceInit == KitInit
-TraceNext == C06Year \/ LunarEdge \/ C01Year \/ C03Year
+TraceNext == C06Year \/ LunarEdge \/ C01Year \/ C03Year \/ C05Year
 TraceSpec == TraceInit /\ [][TraceNext]_tvars
 =============================================================================
